@@ -23,6 +23,7 @@ type replaySpec struct {
 var replays = map[string][]replaySpec{
 	"C08": {{Test: "TestVerifReplayC08", File: "C08_test.go", PkgDir: "prover"}},
 	"C10": {{Test: "TestVerifReplayC10", File: "C10_test.go", PkgDir: "prover"}},
+	"C18": {{Test: "TestVerifReplayC18", File: "C18_test.go", PkgDir: "poseidon_tree"}},
 }
 
 var modelRe = regexp.MustCompile(`\(define-fun\s+(\S+)\s+\(\)\s+Int\s+(\(-\s*)?([0-9]+)`)
